@@ -247,7 +247,7 @@ def mixed_scenario(rng, L, tname, sname, cfg, answers=None, npk=None, malformed_
             elif rng.random() < 0.2:
                 kd2, v2, h2, r2 = cali_table(rng, l)
                 s.pkt(0, l.difop(dual=rng.random() < 0.5, rpm=rng.choice([300, 600, 1200]), fov=fov, vert=v2, horiz=h2, raw_cali=r2))
-            model = rng.choice([0, 2, 3]) if tname == 'RSP80' else None
+            model = rng.choice([0, 2, 3, 2, 3, 1, 4, 0x10, 0xff]) if tname == 'RSP80' else None
             zg = rng.randrange(0, max(1, l.nblk - 2)) if (zero_gap and k == n // 2) else None
             if zg is not None and ms.az < 18000:
                 ms.az = 35000 + rng.randrange(0, 900)
